@@ -60,7 +60,7 @@ def _ops(max_len):
     # each other inside one value and across the operations of one history
     plain = st.recursive(st.sampled_from([None, True, False, 0, 1, 2, 0.0, 1.0, 2.0, 1.5, "a", ""]),
                          lambda ch: st.one_of(st.lists(ch, max_size=3),
-                                              st.dictionaries(st.sampled_from(["a", "b", "c"]), ch, max_size=3)),
+                                              st.dictionaries(st.sampled_from(["a", "b", "c", "a.b", "a.x", "c.d"]), ch, max_size=3)),
                          max_leaves=6)
     from ..codec import Wrapped, Zoo
     hostile_leaf = st.sampled_from([Zoo("set"), Zoo("object"), Zoo("tuple"), Zoo("decimal")])
@@ -121,11 +121,14 @@ def _ops(max_len):
         st.tuples(st.just("substitute-placeholders"), ref, st.integers(1, 15), st.booleans()).map(list),
         st.tuples(st.just("substitute-placeholders"), ref, st.integers(1, 15), st.booleans()).map(list),
         # a generation that fails below `depth` containers
+        # a value that spells one member twice: nested under its key and as a dotted key next to it
+        st.tuples(st.just("substitute-dotted"), ref, st.integers(0, 7)).map(list),
+        st.tuples(st.just("substitute-dotted"), ref, st.integers(0, 7)).map(list),
         # make_required with a caller-owned collection of keys (set / list / tuple), which must come back untouched
         st.tuples(st.just("make-required-keys"), ref, st.integers(0, 15), st.sampled_from(["set", "list", "tuple", "set"])).map(list),
         st.tuples(st.just("make-required-keys"), ref, st.integers(0, 15), st.sampled_from(["set", "list", "tuple", "set"])).map(list),
-        st.tuples(st.just("failing-fake"), st.integers(0, 3), st.integers(0, 6)).map(list),
-        st.tuples(st.just("failing-fake"), st.integers(0, 3), st.integers(3, 6)).map(list),
+        st.tuples(st.just("failing-fake"), st.integers(0, 6), st.integers(0, 6)).map(list),
+        st.tuples(st.just("failing-fake"), st.integers(0, 6), st.integers(3, 6)).map(list),
     )
     prefix = st.tuples(
         st.tuples(st.just("declare"), spec).map(list),
@@ -455,6 +458,22 @@ def check(case, ctx):
 
                     def thunk(s=s, val=val):
                         return substitute(s, val)
+            elif name == "substitute-dotted":
+                s = w.schema(op[1])
+                keys = [k for k in _declared_keys(s) if isinstance(k, str)]
+                if keys:
+                    k = keys[op[2] % len(keys)]
+                    inner = [{"id": 2}, {}, {"name": "n", "x": [1]}, [1, 2]][op[2] % 4]
+                    val = {k: inner, k + ".name": "Alice"} if op[2] < 4 else {k + ".x": 1, k: inner, "zz.y": {"q": 1}}
+                    before_val = copy.deepcopy(val)
+
+                    def thunk(s=s, val=val, before_val=before_val):
+                        try:
+                            return substitute(s, val)
+                        finally:
+                            if _deep(val) != _deep(before_val):
+                                raise Violation("argument-mutated", f"substitute({s!r}, value) changed the caller's value from "
+                                                                    f"{before_val!r} to {val!r}")
             elif name == "make-required-keys":
                 s = w.schema(op[1])
                 keys = _declared_keys(s)
